@@ -1,4 +1,10 @@
-// Package simnet (prototype): in-memory TCP replacement under the simulated scheduler and bubble clock.
+// Package simnet is the only network the simulated system sees (DESIGN.md 2.4): an in-memory TCP replacement
+// under the simulated scheduler and the bubble clock, with seeded read chunking, latency and injected faults.
+//
+// Rules kept throughout: the package mutex is a real mutex that is never held across a scheduling point or a
+// blocking operation; every blocking wait has at most one case that can be ready on entry (one wake channel per
+// waiter, timers created on entry), because a select with two ready cases would be resolved by the Go runtime's
+// unseeded PRNG and break replay.
 package simnet
 
 import (
@@ -19,23 +25,72 @@ type addr string
 func (a addr) Network() string { return "tcp" }
 func (a addr) String() string  { return string(a) }
 
-// Net is one simulated network; create it inside the bubble.
+// Read chunking modes.
+const (
+	ChunkAll     = iota // everything available (maximal coalescing)
+	ChunkOne            // one byte per Read (maximal splitting)
+	ChunkUniform        // uniform in [1, available]
+	ChunkFrame          // up to the next Write boundary (what loopback tests always see)
+	ChunkMixed          // a fresh draw among the above per Read
+)
+
+// Stats counts what actually happened (fired, not merely configured).
+type Stats struct {
+	Dials, Refused, Blackholed, PartitionRefused int
+	Reads, PartialReads, CoalescedReads          int // partial: less than available; coalesced: spanning a Write boundary
+	Writes, Bytes                                int
+	Cuts, CutEOF, CutRST                         int
+	WriteErrLate, WriteErrNow                    int
+	Partitions, Heals, Crashes                   int
+	Delayed                                      int
+	WriteDeadline                                int
+}
+
+// Net is one simulated network; create it inside the bubble, before any system starts.
 type Net struct {
 	mu        sync.Mutex
 	listeners map[string]*listener
 	conns     []*conn
 	nextPort  int
-	ChunkMode int // 0 everything available, 1 one byte, 2 random
-	Refuse    map[string]bool
-	Stats     struct{ Dials, Refused, Reads, PartialReads, Writes, Bytes, Cuts int }
+	nodeOf    map[string]int // listen address -> node tag
+
+	ChunkMode    int
+	MinLatency   time.Duration
+	Jitter       time.Duration
+	LateWriteErr int // percent of connections on which a write after the peer went away fails one write late (as real TCP)
+
+	refuse    map[string]bool
+	blackhole map[string]bool
+	part      map[[2]int]bool
+	Stats     Stats
+	// cut plans: applied to the next connection dialled to the address
+	cutPlans map[string][]*CutPlan
+}
+
+// CutPlan cuts a connection after a stream offset (in the dialler->listener direction unless Reverse).
+type CutPlan struct {
+	Offset  int  // bytes delivered before the cut
+	RST     bool // reader sees ECONNRESET instead of EOF
+	Reverse bool // count bytes of the listener->dialler direction
+	fired   bool
 }
 
 var cur *Net
 
 func New() *Net {
-	n := &Net{listeners: map[string]*listener{}, nextPort: 40000, Refuse: map[string]bool{}}
+	n := &Net{listeners: map[string]*listener{}, nextPort: 40000, nodeOf: map[string]int{}, refuse: map[string]bool{}, blackhole: map[string]bool{},
+		part: map[[2]int]bool{}, cutPlans: map[string][]*CutPlan{}, LateWriteErr: 50}
 	cur = n
 	return n
+}
+
+func Current() *Net { return cur }
+
+// RegisterNode tells the network which node (simrt tag) listens on address.
+func (n *Net) RegisterNode(address string, tag int) {
+	n.mu.Lock()
+	n.nodeOf[address] = tag
+	n.mu.Unlock()
 }
 
 type listener struct {
@@ -54,84 +109,154 @@ func ListenTLS(network, laddr string, _ *tls.Config) (net.Listener, error) { ret
 
 func listen(a string) (net.Listener, error) {
 	n := cur
+	if n == nil {
+		return nil, errors.New("simnet: no network")
+	}
 	n.mu.Lock()
 	defer n.mu.Unlock()
 	if _, ok := n.listeners[a]; ok {
-		return nil, fmt.Errorf("listen tcp %s: bind: address already in use", a)
+		return nil, &net.OpError{Op: "listen", Net: "tcp", Err: errors.New("bind: address already in use")}
 	}
-	l := &listener{n: n, a: a, accept: make(chan *conn, 64), closed: make(chan struct{})}
+	l := &listener{n: n, a: a, accept: make(chan *conn, 256), closed: make(chan struct{})}
 	n.listeners[a] = l
 	return l, nil
 }
 
 func (l *listener) Accept() (net.Conn, error) {
+	// closed is checked first without blocking so that at most the accept channel can be ready when we block
 	select {
-	case c := <-l.accept:
-		simrt.Yield()
-		return c, nil
 	case <-l.closed:
 		simrt.Yield()
 		return nil, net.ErrClosed
+	default:
+	}
+	select {
+	case c := <-l.accept:
+		simrt.Yield()
+		if c == nil {
+			return nil, net.ErrClosed
+		}
+		return c, nil
 	}
 }
 
 func (l *listener) Close() error {
 	l.once.Do(func() {
 		l.n.mu.Lock()
-		delete(l.n.listeners, l.a)
+		if l.n.listeners[l.a] == l {
+			delete(l.n.listeners, l.a)
+		}
 		l.n.mu.Unlock()
 		close(l.closed)
+		// wake a blocked Accept (a nil connection means closed); never blocks: the channel is large and we only try
+		select {
+		case l.accept <- nil:
+		default:
+		}
 	})
 	return nil
 }
 
 func (l *listener) Addr() net.Addr { return addr(l.a) }
 
+type segment struct {
+	data    []byte
+	readyAt time.Time
+	end     bool // last byte of a Write call (frame boundary for ChunkFrame)
+}
+
 // half is one direction of a connection.
 type half struct {
-	buf    []byte
-	closed bool // writer closed: reader gets EOF after draining
-	reset  bool
-	avail  chan struct{}
+	segs         []segment
+	pending      int  // unread bytes
+	closed       bool // writer closed: reader gets EOF after draining
+	reset        bool // reader gets ECONNRESET after draining
+	written      int  // total bytes accepted
+	cut          *CutPlan
+	avail        chan struct{}
+	lastReady    time.Time
+	writerGone   bool // the reading side went away: writes fail
+	lateErrArmed bool
 }
 
 type conn struct {
-	n            *Net
-	local, peer  addr
-	rd, wr       *half
-	rdl          time.Time
-	rdlChanged   chan struct{}
-	selfClosed   bool
-	other        *conn
-	bytesWritten int
+	n                 *Net
+	local, peer       addr
+	rd, wr            *half
+	rdl               time.Time
+	wdl               time.Time
+	selfClosed        bool
+	other             *conn
+	tagLocal, tagPeer int
+	stalled           bool // partition with stall: nothing moves
+	lateErr           bool
 }
+
+func tagOfCaller() int { return simrt.CurTag() }
 
 func Dial(network, address string) (net.Conn, error) {
 	simrt.Yield()
 	n := cur
+	if n == nil {
+		return nil, errors.New("simnet: no network")
+	}
+	me := tagOfCaller()
 	n.mu.Lock()
 	n.Stats.Dials++
+	if n.blackhole[address] {
+		n.Stats.Blackholed++
+		n.mu.Unlock()
+		simrt.CountFault(2)
+		time.Sleep(30 * time.Second)
+		simrt.Yield()
+		return nil, &net.OpError{Op: "dial", Net: "tcp", Err: os.ErrDeadlineExceeded}
+	}
 	l, ok := n.listeners[address]
-	if !ok || n.Refuse[address] {
+	peerTag, known := n.nodeOf[address]
+	if known && n.part[pair(me, peerTag)] {
+		n.Stats.PartitionRefused++
+		n.mu.Unlock()
+		simrt.CountFault(3)
+		return nil, &net.OpError{Op: "dial", Net: "tcp", Err: errors.New("connect: no route to host (partition)")}
+	}
+	if !ok || n.refuse[address] || (known && simrt.IsFrozen(peerTag)) {
 		n.Stats.Refused++
 		n.mu.Unlock()
-		return nil, &net.OpError{Op: "dial", Net: "tcp", Err: errors.New("connection refused")}
+		simrt.CountFault(1)
+		return nil, &net.OpError{Op: "dial", Net: "tcp", Err: errors.New("connect: connection refused")}
 	}
 	n.nextPort++
-	la := addr(fmt.Sprintf("10.0.0.1:%d", n.nextPort))
+	la := addr(fmt.Sprintf("10.0.0.%d:%d", 1+me%250, n.nextPort))
 	a2b := &half{avail: make(chan struct{}, 1)}
 	b2a := &half{avail: make(chan struct{}, 1)}
-	c := &conn{n: n, local: la, peer: addr(address), rd: b2a, wr: a2b, rdlChanged: make(chan struct{}, 1)}
-	s := &conn{n: n, local: addr(address), peer: la, rd: a2b, wr: b2a, rdlChanged: make(chan struct{}, 1)}
+	if plans := n.cutPlans[address]; len(plans) > 0 {
+		p := plans[0]
+		n.cutPlans[address] = plans[1:]
+		if p.Reverse {
+			b2a.cut = p
+		} else {
+			a2b.cut = p
+		}
+	}
+	late := simrt.Choose(simrt.KNet, 100) < n.LateWriteErr
+	c := &conn{n: n, local: la, peer: addr(address), rd: b2a, wr: a2b, tagLocal: me, tagPeer: peerTag, lateErr: late}
+	s := &conn{n: n, local: addr(address), peer: la, rd: a2b, wr: b2a, tagLocal: peerTag, tagPeer: me, lateErr: late}
 	c.other, s.other = s, c
 	n.conns = append(n.conns, c, s)
 	n.mu.Unlock()
 	select {
 	case l.accept <- s:
 	default:
-		return nil, &net.OpError{Op: "dial", Net: "tcp", Err: errors.New("backlog full")}
+		return nil, &net.OpError{Op: "dial", Net: "tcp", Err: errors.New("connect: backlog full")}
 	}
 	return c, nil
+}
+
+func pair(a, b int) [2]int {
+	if a > b {
+		a, b = b, a
+	}
+	return [2]int{a, b}
 }
 
 func signal(ch chan struct{}) {
@@ -142,59 +267,104 @@ func signal(ch chan struct{}) {
 }
 
 func (c *conn) Read(p []byte) (int, error) {
+	if len(p) == 0 {
+		return 0, nil
+	}
 	for {
 		c.n.mu.Lock()
-		c.n.Stats.Reads++
 		if c.selfClosed {
 			c.n.mu.Unlock()
 			return 0, net.ErrClosed
 		}
-		if len(c.rd.buf) > 0 {
-			k := len(c.rd.buf)
+		now := time.Now()
+		h := c.rd
+		if !c.stalled && len(h.segs) > 0 && !h.segs[0].readyAt.After(now) {
+			// bytes readable now: everything whose readyAt has passed
+			avail := 0
+			firstBoundary := 0
+			for _, s := range h.segs {
+				if s.readyAt.After(now) {
+					break
+				}
+				avail += len(s.data)
+				if firstBoundary == 0 && s.end {
+					firstBoundary = avail
+				}
+			}
+			k := avail
 			if k > len(p) {
 				k = len(p)
 			}
-			switch c.n.ChunkMode {
-			case 1:
-				k = 1
-			case 2:
-				k = 1 + simrt.Choose(simrt.KNet, k)
+			mode := c.n.ChunkMode
+			if mode == ChunkMixed {
+				mode = simrt.Choose(simrt.KNet, 4)
 			}
-			if k < len(c.rd.buf) {
+			switch mode {
+			case ChunkOne:
+				k = 1
+			case ChunkUniform:
+				k = 1 + simrt.Choose(simrt.KNet, k)
+			case ChunkFrame:
+				if firstBoundary > 0 && firstBoundary < k {
+					k = firstBoundary
+				}
+			}
+			c.n.Stats.Reads++
+			if k < avail {
 				c.n.Stats.PartialReads++
 			}
-			copy(p, c.rd.buf[:k])
-			c.rd.buf = c.rd.buf[k:]
+			if firstBoundary > 0 && k > firstBoundary {
+				c.n.Stats.CoalescedReads++
+			}
+			// copy k bytes out
+			out := 0
+			for out < k {
+				s := &h.segs[0]
+				m := copy(p[out:k], s.data)
+				out += m
+				if m == len(s.data) {
+					h.segs = h.segs[1:]
+				} else {
+					s.data = s.data[m:]
+				}
+			}
+			h.pending -= k
 			c.n.mu.Unlock()
+			simrt.Progress()
 			return k, nil
 		}
-		if c.rd.reset {
-			c.n.mu.Unlock()
-			return 0, &net.OpError{Op: "read", Net: "tcp", Err: errors.New("connection reset by peer")}
-		}
-		if c.rd.closed {
-			c.n.mu.Unlock()
-			return 0, io.EOF
+		if len(h.segs) == 0 {
+			if h.reset {
+				c.n.mu.Unlock()
+				return 0, &net.OpError{Op: "read", Net: "tcp", Err: errors.New("connection reset by peer")}
+			}
+			if h.closed {
+				c.n.mu.Unlock()
+				return 0, io.EOF
+			}
 		}
 		dl := c.rdl
+		var wakeAt time.Time
+		if len(h.segs) > 0 && !c.stalled {
+			wakeAt = h.segs[0].readyAt
+		}
 		c.n.mu.Unlock()
-		var timer <-chan time.Time
-		if !dl.IsZero() {
-			d := time.Until(dl)
-			if d <= 0 {
-				return 0, os.ErrDeadlineExceeded
-			}
-			t := time.NewTimer(d)
-			timer = t.C
-			// only rd.avail can be ready on entry (the timer was created just now with d > 0):
-			// a select with two ready cases would be resolved by the runtime's unseeded PRNG
+		if !dl.IsZero() && !dl.After(now) {
+			return 0, os.ErrDeadlineExceeded
+		}
+		if !dl.IsZero() && (wakeAt.IsZero() || dl.Before(wakeAt)) {
+			wakeAt = dl
+		}
+		if !wakeAt.IsZero() {
+			t := time.NewTimer(wakeAt.Sub(now))
+			// only rd.avail can be ready on entry (the timer was created just now with a positive duration)
 			select {
-			case <-c.rd.avail:
-			case <-timer:
+			case <-h.avail:
+			case <-t.C:
 			}
 			t.Stop()
 		} else {
-			<-c.rd.avail
+			<-h.avail
 		}
 		simrt.Yield()
 	}
@@ -203,18 +373,90 @@ func (c *conn) Read(p []byte) (int, error) {
 func (c *conn) Write(p []byte) (int, error) {
 	simrt.Yield()
 	c.n.mu.Lock()
-	defer c.n.mu.Unlock()
 	c.n.Stats.Writes++
 	if c.selfClosed {
+		c.n.mu.Unlock()
 		return 0, net.ErrClosed
 	}
-	if c.wr.reset || c.wr.closed {
+	if !c.wdl.IsZero() && !c.wdl.After(time.Now()) {
+		// deadlines are absolute: a write after the deadline fails without writing anything
+		c.n.Stats.WriteDeadline++
+		c.n.mu.Unlock()
+		return 0, os.ErrDeadlineExceeded
+	}
+	h := c.wr
+	if h.writerGone || h.reset || h.closed {
+		// the peer went away (closed, reset, crashed, cut). Real TCP accepts one more write before the RST comes back.
+		if c.lateErr && !h.lateErrArmed {
+			h.lateErrArmed = true
+			c.n.Stats.WriteErrLate++
+			c.n.mu.Unlock()
+			return len(p), nil // swallowed
+		}
+		c.n.Stats.WriteErrNow++
+		c.n.mu.Unlock()
 		return 0, &net.OpError{Op: "write", Net: "tcp", Err: errors.New("broken pipe")}
 	}
-	c.wr.buf = append(c.wr.buf, p...)
-	c.bytesWritten += len(p)
-	c.n.Stats.Bytes += len(p)
-	signal(c.wr.avail)
+	deliver := p
+	cutNow := false
+	if h.cut != nil && !h.cut.fired && h.written+len(p) >= h.cut.Offset {
+		deliver = p[:h.cut.Offset-h.written]
+		cutNow = true
+	}
+	if len(deliver) > 0 {
+		ready := time.Now()
+		if c.n.MinLatency > 0 || c.n.Jitter > 0 {
+			d := c.n.MinLatency
+			if c.n.Jitter > 0 {
+				d += time.Duration(simrt.Choose(simrt.KNet, int(c.n.Jitter/time.Microsecond)+1)) * time.Microsecond
+			}
+			ready = ready.Add(d)
+			c.n.Stats.Delayed++
+		}
+		if ready.Before(h.lastReady) {
+			ready = h.lastReady // order preserved
+		}
+		h.lastReady = ready
+		h.segs = append(h.segs, segment{data: append([]byte(nil), deliver...), readyAt: ready, end: !cutNow})
+		h.pending += len(deliver)
+		h.written += len(deliver)
+		c.n.Stats.Bytes += len(deliver)
+	}
+	if cutNow {
+		h.cut.fired = true
+		c.n.Stats.Cuts++
+		if h.cut.RST {
+			h.reset = true
+			c.n.Stats.CutRST++
+		} else {
+			h.closed = true
+			c.n.Stats.CutEOF++
+		}
+		// the other direction dies as well
+		o := c.rd
+		o.writerGone = true
+		if h.cut.RST {
+			o.reset = true
+		} else {
+			o.closed = true
+		}
+		signal(o.avail)
+		simrt.CountFault(0)
+	}
+	signal(h.avail)
+	c.n.mu.Unlock()
+	simrt.Progress()
+	if cutNow {
+		// the writer learns about the cut on this write or (late-error connections) on the next one
+		if c.lateErr {
+			c.n.mu.Lock()
+			h.lateErrArmed = true
+			c.n.Stats.WriteErrLate++
+			c.n.mu.Unlock()
+			return len(p), nil
+		}
+		return len(deliver), &net.OpError{Op: "write", Net: "tcp", Err: errors.New("connection reset by peer")}
+	}
 	return len(p), nil
 }
 
@@ -225,37 +467,27 @@ func (c *conn) Close() error {
 		return nil
 	}
 	c.selfClosed = true
-	c.wr.closed = true // peer reads EOF after draining
-	c.rd.reset = true  // peer writes fail
-	c.rd.closed = true
+	c.wr.closed = true     // peer reads EOF after draining
+	c.rd.writerGone = true // peer writes fail
 	signal(c.wr.avail)
 	signal(c.rd.avail)
 	return nil
 }
 
-// Cut resets the connection in both directions (fault).
-func (c *conn) cut() {
-	c.rd.reset, c.wr.reset = true, true
-	signal(c.rd.avail)
-	signal(c.wr.avail)
-}
-
-func (n *Net) CutAll() {
-	n.mu.Lock()
-	defer n.mu.Unlock()
-	for _, c := range n.conns {
-		if !c.selfClosed {
-			c.cut()
-			n.Stats.Cuts++
-		}
+// reset kills the connection in both directions (crash, partition with reset).
+func (c *conn) resetLocked() {
+	for _, h := range []*half{c.rd, c.wr} {
+		h.reset = true
+		h.writerGone = true
+		signal(h.avail)
 	}
 }
 
 func (c *conn) LocalAddr() net.Addr  { return c.local }
 func (c *conn) RemoteAddr() net.Addr { return c.peer }
 func (c *conn) SetDeadline(t time.Time) error {
-	_ = c.SetReadDeadline(t)
-	return nil
+	_ = c.SetWriteDeadline(t)
+	return c.SetReadDeadline(t)
 }
 func (c *conn) SetReadDeadline(t time.Time) error {
 	c.n.mu.Lock()
@@ -264,4 +496,111 @@ func (c *conn) SetReadDeadline(t time.Time) error {
 	signal(c.rd.avail)
 	return nil
 }
-func (c *conn) SetWriteDeadline(t time.Time) error { return nil }
+func (c *conn) SetWriteDeadline(t time.Time) error {
+	c.n.mu.Lock()
+	c.wdl = t
+	c.n.mu.Unlock()
+	return nil
+}
+
+// ---- fault API (harness) ----
+
+// PlanCut arranges that the next connection dialled to address is cut after offset bytes.
+func (n *Net) PlanCut(address string, p *CutPlan) {
+	n.mu.Lock()
+	n.cutPlans[address] = append(n.cutPlans[address], p)
+	n.mu.Unlock()
+}
+
+// Refuse makes dials to address fail (listener down) until Allow.
+func (n *Net) Refuse(address string, on bool) {
+	n.mu.Lock()
+	n.refuse[address] = on
+	n.mu.Unlock()
+}
+
+func (n *Net) Blackhole(address string, on bool) {
+	n.mu.Lock()
+	n.blackhole[address] = on
+	n.mu.Unlock()
+}
+
+// Partition separates two nodes: new dials fail; existing connections are reset (reset=true) or stalled.
+func (n *Net) Partition(a, b int, reset bool) {
+	n.mu.Lock()
+	n.part[pair(a, b)] = true
+	n.Stats.Partitions++
+	for _, c := range n.conns {
+		if pair(c.tagLocal, c.tagPeer) == pair(a, b) && !c.selfClosed {
+			if reset {
+				c.resetLocked()
+			} else {
+				c.stalled = true
+			}
+		}
+	}
+	n.mu.Unlock()
+	simrt.CountFault(4)
+}
+
+// Heal removes the partition; stalled connections resume.
+func (n *Net) Heal(a, b int) {
+	n.mu.Lock()
+	delete(n.part, pair(a, b))
+	n.Stats.Heals++
+	for _, c := range n.conns {
+		if pair(c.tagLocal, c.tagPeer) == pair(a, b) && c.stalled {
+			c.stalled = false
+			signal(c.rd.avail)
+		}
+	}
+	n.mu.Unlock()
+}
+
+// CutAll resets every open connection between two nodes (or all connections if a<0).
+func (n *Net) CutAll(a, b int) int {
+	n.mu.Lock()
+	k := 0
+	for _, c := range n.conns {
+		if c.selfClosed || c.rd.reset {
+			continue
+		}
+		if a < 0 || pair(c.tagLocal, c.tagPeer) == pair(a, b) {
+			c.resetLocked()
+			k++
+		}
+	}
+	n.Stats.Cuts += k / 2
+	n.mu.Unlock()
+	simrt.CountFault(0)
+	return k / 2
+}
+
+// CrashNode removes the node's listeners and resets its connections (the node's goroutines are frozen by simrt.Freeze).
+func (n *Net) CrashNode(tag int) {
+	n.mu.Lock()
+	n.Stats.Crashes++
+	for a, l := range n.listeners {
+		if n.nodeOf[a] == tag {
+			delete(n.listeners, a)
+			_ = l
+		}
+	}
+	for _, c := range n.conns {
+		if c.tagLocal == tag || c.tagPeer == tag {
+			c.resetLocked()
+		}
+	}
+	n.mu.Unlock()
+	simrt.CountFault(5)
+}
+
+// StatsCopy returns the counters.
+func (n *Net) StatsCopy() Stats {
+	n.mu.Lock()
+	defer n.mu.Unlock()
+	return n.Stats
+}
+
+// InjectRaw dials address as a fake peer and returns the raw connection (bad-frame injection).
+func (n *Net) InjectRaw(address string) (net.Conn, error) { return Dial("tcp", address) }
